@@ -79,3 +79,44 @@ def run(ctx):
         uses = any(c for g in ao for c in g.calls if re.search(r'ordered_pk_ids|find_sort_key_id', c.name or ''))
         ctx.note(f'C12-R2: analyze_order consults ordered_pk_ids/find_sort_key_id: {uses} (two column-level PRIMARY KEYs are rejected '
                  f'by the binder today, so the first is_primary() column is the only key)')
+
+    R3 = 'C12-R3'
+    ctx.rule(R3, 'LIMIT/OFFSET: every batch taken from the child is counted: on every path from receiving a batch to asking for the '
+                 'next one the row counter is advanced')
+    lim = prog.body('executor::limit::LimitExecutor::execute::{closure#0}')
+    if ctx.anchor(R3, 'executor::limit::LimitExecutor::execute', lim is not None):
+        ctx.functions_analysed.add(lim.name)
+        polls = [c.bb for c in lim.calls if (c.fn or '').endswith('Stream::poll_next')]
+        some_targets = []
+        for i, bl in enumerate(lim.blocks):
+            t = bl['term']
+            if t['k'] == 'switch' and t.get('adt') == 'std::option::Option' and t.get('on') and \
+                    any(p.startswith('as:Ready') for p in t['on']['p']):
+                for v, tgt in t['targets']:
+                    if t.get('variants', {}).get(v) == 'Some':
+                        some_targets.append(tgt)
+        # counters: usize locals initialised to 0 and re-assigned from an Add in the loop
+        zero_init = {st['lhs']['l'] for _, st in lim.stmts() if not st['lhs']['p'] and st.get('rv', {}).get('rv') == 'use'
+                     and st['rv']['op']['k'] == 'const' and st['rv']['op'].get('v', '').replace('const ', '') == '0_usize'}
+        adds = {}
+        for bb, st in lim.stmts():
+            rv = st.get('rv', {})
+            if rv.get('rv') == 'binop' and rv['op'].startswith('Add') and rv['ty'] == 'usize':
+                adds[st['lhs']['l']] = bb
+        upd = {}
+        for bb, st in lim.stmts():
+            rv = st.get('rv', {})
+            if not st['lhs']['p'] and st['lhs']['l'] in zero_init and rv.get('rv') == 'use' and rv['op']['k'] != 'const' \
+                    and rv['op']['pl']['l'] in adds:
+                upd.setdefault(st['lhs']['l'], []).append(bb)
+        if ctx.anchor(R3, 'LimitExecutor: child poll / Some arm', polls and some_targets) and ctx.anchor(R3, 'LimitExecutor: row counter', upd):
+            for cnt, blocks in sorted(upd.items()):
+                errs = lim.error_exit_blocks()
+                reach = lim.reachable_from(some_targets, avoid=set(blocks) | errs)
+                skipped = sorted(reach & set(polls))   # leaving the loop (break / error) needs no count
+                ctx.ob(R3, f'LimitExecutor·counter-advances·{lim.var_name(cnt) or cnt}', not skipped,
+                       f'counter `{lim.var_name(cnt)}` is advanced at blocks {blocks}; next poll reachable from a received batch '
+                       f'without advancing it: {skipped}', [site(lim, b_) for b_ in blocks],
+                       what='LimitExecutor skips its row counter for some batches (e.g. a batch lying entirely before OFFSET): later '
+                            'batches are sliced at the wrong position')
+
